@@ -157,6 +157,15 @@ func (v *PacketDslVisitorImpl) VisitPacketDefinition(ctx *gen.PacketDefinitionCo
 				lengthField = fld
 			}
 
+			if _, dup := fieldMap[fld.Name]; dup {
+				v.BinModel.AddSyntaxError(&model.SyntaxError{
+					Line:            fctx.GetStart().GetLine(),
+					Column:          fctx.GetStart().GetTokenSource().GetCharPositionInLine(),
+					Msg:             "Duplicate field definition for " + fld.Name + " in packet " + name,
+					OffendingSymbol: nil,
+				})
+				continue
+			}
 			fields = append(fields, fld)
 			fieldMap[fld.Name] = fld
 
@@ -364,6 +373,7 @@ func (v *PacketDslVisitorImpl) VisitInerObjectField(ctx *gen.InerObjectFieldCont
 	decl := ctx.InerObjectDeclaration()
 	name := decl.IDENTIFIER().GetText()
 	var subFields []*model.Field
+	subFieldNames := make(map[string]bool)
 	// Iterate all sub-field definitions inside the nested object
 	for _, fctx := range decl.AllFieldDefinition() {
 		fld := v.VisitFieldDefinition(fctx)
@@ -371,6 +381,16 @@ func (v *PacketDslVisitorImpl) VisitInerObjectField(ctx *gen.InerObjectFieldCont
 			continue
 		}
 		f := fld.(*model.Field)
+		if subFieldNames[f.Name] {
+			v.BinModel.AddSyntaxError(&model.SyntaxError{
+				Line:            fctx.GetStart().GetLine(),
+				Column:          fctx.GetStart().GetTokenSource().GetCharPositionInLine(),
+				Msg:             "Duplicate field definition for " + f.Name + " in " + name,
+				OffendingSymbol: nil,
+			})
+			continue
+		}
+		subFieldNames[f.Name] = true
 		subFields = append(subFields, f)
 	}
 	// Construct nested Packet model
